@@ -158,8 +158,11 @@ def run(mfile, rfile, jobs=4):
             done.add(json.loads(l)["id"])
     todo = [m for m in muts if m["id"] not in done]
     print("todo", len(todo))
+    from concurrent.futures import as_completed
     with ThreadPoolExecutor(max_workers=jobs) as ex, open(rfile, "a") as fo:
-        for res in ex.map(run_one, todo):
+        futs = [ex.submit(run_one, m) for m in todo]
+        for fu in as_completed(futs):
+            res = fu.result()
             fo.write(json.dumps(res) + "\n")
             fo.flush()
             print(res["id"], res["file"], res["line"] + 1, res["op"], "->", res["outcome"], res.get("caught_by") or res.get("loud_by") or "", flush=True)
